@@ -34,6 +34,7 @@ type scenario struct {
 	SessF    *ch.SessFault
 	Workers  int  // >1: API calls issued concurrently
 	Resume   bool // afterwards reconnect with the same session (clean=false) and finish
+	SlowLog  bool // the application's Logger takes a moment on every "Sent:" line
 }
 
 func (s scenario) String() string {
@@ -44,7 +45,7 @@ func (s scenario) String() string {
 	if s.SessF != nil {
 		f = fmt.Sprintf("session:%s#%d", s.SessF.Method, s.SessF.K)
 	}
-	return fmt.Sprintf("connack=%s acks=%s api=%v terminal=%s workers=%d resume=%t | %s", s.Connack, s.Acks, s.API, s.Terminal, s.Workers, s.Resume, f)
+	return fmt.Sprintf("connack=%s acks=%s api=%v terminal=%s workers=%d resume=%t slowlog=%t | %s", s.Connack, s.Acks, s.API, s.Terminal, s.Workers, s.Resume, s.SlowLog, f)
 }
 
 type fut struct {
@@ -196,6 +197,13 @@ func run(r *h.Run, sc scenario) result {
 		}
 		return nil
 	}
+	if sc.SlowLog {
+		c.Logger = func(msg string) {
+			if strings.HasPrefix(msg, "Sent: <Publish") || strings.HasPrefix(msg, "Sent: <Subscribe") || strings.HasPrefix(msg, "Sent: <Unsubscribe") {
+				time.Sleep(400 * time.Microsecond)
+			}
+		}
+	}
 	cfg := ch.Config(srv, "c09-client", false)
 	cfg.ValidateSubs = true
 	var futs []*fut
@@ -297,9 +305,45 @@ func run(r *h.Run, sc scenario) result {
 			}
 		}
 		for _, ft := range futs {
-			if ft.f != nil {
-				if ft.f.Wait(pick(sc.ConnF != nil || sc.SessF != nil, 150*time.Millisecond, bh.Watchdog)) == nil {
-					ft.okAt = srv.Log.Add("harness", "future-ok", nil, ft.op+" "+ft.tag)
+			if ft.f == nil {
+				continue
+			}
+			err := ft.f.Wait(pick(sc.ConnF != nil || sc.SessF != nil, 150*time.Millisecond, 3*time.Second))
+			if err == nil {
+				ft.okAt = srv.Log.Add("harness", "future-ok", nil, ft.op+" "+ft.tag)
+				continue
+			}
+			if err == future.ErrTimeout && sc.ConnF == nil && sc.SessF == nil && ft.op != "pub0" {
+				// bounded progress: the matching acknowledgement has been received by the
+				// client on a connection that is still up, so the future must complete
+				need := map[string]string{"pub1": "Puback", "pub2": "Pubcomp", "sub": "Suback", "unsub": "Unsuback"}[ft.op]
+				var id packet.ID
+				known, got := false, false
+				for _, e := range srv.Log.Events() {
+					if e.Kind == "csend" {
+						switch v := e.Pkt.(type) {
+						case *packet.Publish:
+							if string(v.Message.Payload) == ft.tag {
+								id, known = v.ID, true
+							}
+						case *packet.Subscribe:
+							if v.Subscriptions[0].Topic == "s/"+ft.tag {
+								id, known = v.ID, true
+							}
+						case *packet.Unsubscribe:
+							if v.Topics[0] == "s/"+ft.tag {
+								id, known = v.ID, true
+							}
+						}
+					}
+					if known && e.Kind == "crecv" && e.Pkt != nil && e.Pkt.Type().String() == need {
+						if pid, _ := packet.GetID(e.Pkt); pid == id {
+							got = true
+						}
+					}
+				}
+				if got && conn1 != nil && !conn1.Peer.EOF() && ft.f.Wait(time.Second) == future.ErrTimeout {
+					fail("future-pending-although-ack-received", fmt.Sprintf("the client received %s id=%d for its %s (%s) more than 3 s ago on a connection that is still up, and the future is still pending", need, id, ft.op, ft.tag))
 				}
 			}
 		}
@@ -675,6 +719,12 @@ func TestCheck(t *testing.T) {
 			}
 			base = append(base, sc)
 		}
+	}
+	for k, api := range seqs {
+		if len(api) > 2 && k%5 != 0 {
+			continue
+		}
+		base = append(base, scenario{Connack: "ok", Acks: "normal", API: api, Terminal: terms[k%4], SlowLog: true, Workers: 1 + k%3})
 	}
 	for _, ca := range []string{"refused", "absent", "wrong-first"} {
 		for _, term := range terms {
